@@ -245,6 +245,10 @@ func TestVerifC18Attribution(t *testing.T) {
 		uAttr.Journal(c)
 		uAttr.Case(c, len(distinct) >= 2, fmt.Sprintf("sessions=%d", n))
 		if err := vstat.Safely(func() error { return runMulti(t, c) }); err != nil {
+			if vstat.Inconclusive(err) {
+				uAttr.Add("inconclusive", 1)
+				rt.Skipf("%v", err)
+			}
 			rt.Fatalf("%s", uAttr.Fail(c, "%v", err))
 		}
 	})
